@@ -162,6 +162,51 @@ pub fn world_defs() -> Vec<WorldDef> {
     ]
 }
 
+/// Configuration sweep: port layouts x every subset of {per-port acceptable-master lists, path
+/// trace, unequal intervals, non-zero domain/sdoId, a second better master} x {fresh, slave of A},
+/// explored to a shallow depth.  `reduced` keeps the single tokens and the full set only.
+pub fn sweep_defs(reduced: bool) -> Vec<WorldDef> {
+    const TOKENS: [&str; 5] = ["+aml", "+pt", "+iv", "+sdo", "+b100"];
+    let mut out = vec![];
+    let layouts: [(&str, Vec<(bool, bool)>); 4] = [
+        ("sweep-1p-e2e", vec![(false, false)]),
+        ("sweep-1p-p2p", vec![(true, false)]),
+        ("sweep-2p-e2e", vec![(false, false), (false, false)]),
+        ("sweep-2p-p2p+mo", vec![(true, false), (false, true)]),
+    ];
+    for (lname, ports) in layouts.iter() {
+        for mask in 0u32..32 {
+            if reduced && !(mask.count_ones() <= 1 || mask == 31) {
+                continue;
+            }
+            for slave_only in [false, true] {
+                if slave_only && (mask & 0b10110) != 0 && reduced {
+                    continue;
+                }
+                for seeded in [false, true] {
+                    let mut name = lname.to_string();
+                    for (i, t) in TOKENS.iter().enumerate() {
+                        if mask & (1 << i) != 0 {
+                            name.push_str(t);
+                        }
+                    }
+                    if slave_only {
+                        name.push_str("+so");
+                    }
+                    if seeded {
+                        name.push_str("+slave");
+                    }
+                    let seed = if seeded { vec![Ev::Ann(0, 0), Ev::Ann(0, 0), Ev::Bmca] } else { vec![] };
+                    // names live for the whole process
+                    let name: &'static str = Box::leak(name.into_boxed_str());
+                    out.push(WorldDef { name, ports: ports.clone(), slave_only, seed, obedient: false, rich: false, depth: (3, 4) });
+                }
+            }
+        }
+    }
+    out
+}
+
 pub fn build<'m, M: Monitor>(property: &'static str, monitor: &'m M, defs: Vec<WorldDef>, kalman: bool) -> Vec<(WorldSys<'m, M>, (usize, usize))> {
     defs.into_iter()
         .map(|d| {
@@ -176,6 +221,36 @@ pub fn build<'m, M: Monitor>(property: &'static str, monitor: &'m M, defs: Vec<W
             }
             a = global_alphabet(a);
             if d.name.contains("two-better-masters") {
+                cfg.peers[1].priority1 = 100;
+            }
+            // configuration tokens of the sweep worlds
+            if d.name.contains("+aml") {
+                // port 1 accepts only A, port 2 (if any) only B
+                let a = statime::config::ClockIdentity(cfg.peers[0].pid.clock);
+                let b = statime::config::ClockIdentity(cfg.peers[1].pid.clock);
+                for (i, p) in cfg.node.ports.iter_mut().enumerate() {
+                    p.aml = Some(vec![if i % 2 == 0 { a } else { b }]);
+                }
+            }
+            if d.name.contains("+pt") {
+                cfg.node.path_trace = true;
+            }
+            if d.name.contains("+iv") {
+                for p in cfg.node.ports.iter_mut() {
+                    p.log_announce = 1;
+                    p.log_sync = -2;
+                    p.log_delay = -1;
+                }
+            }
+            if d.name.contains("+sdo") {
+                cfg.node.domain = 7;
+                cfg.node.sdo = 0x123;
+                for q in cfg.peers.iter_mut() {
+                    q.domain = 7;
+                    q.sdo = 0x123;
+                }
+            }
+            if d.name.contains("+b100") {
                 cfg.peers[1].priority1 = 100;
             }
             let mut macros = vec![];
@@ -203,6 +278,9 @@ pub fn run(tier: Tier) -> i32 {
     let depths: std::collections::HashMap<String, (usize, usize)> = built.iter().map(|(s, d)| (s.name.clone(), *d)).collect();
     let systems: Vec<_> = built.into_iter().map(|(s, _)| s).collect();
     explore_all(&mut rep, &systems, |s| tier.pick(depths[&s.name].0, depths[&s.name].1), tier.pick(12.0, 300.0));
+    // configuration sweep at shallow depth
+    let sweep: Vec<_> = build("C08", &RoleMon, sweep_defs(tier == Tier::Quick), true).into_iter().map(|(s, _)| s).collect();
+    explore_more(&mut rep, "sweep", &sweep, tier.pick(3, 4), tier.pick(2.0, 30.0));
     // engine validation: stateright's own breadth-first checker explores the same systems (same
     // real transition function, its own visited set, an independent 128-bit key hash) and must
     // count exactly the states E1 counts.  One child process per world, single-threaded each
@@ -245,6 +323,8 @@ pub fn run(tier: Tier) -> i32 {
 }
 
 pub fn replay(r: &serde_json::Value) {
-    let systems: Vec<_> = build("C08", &RoleMon, world_defs(), true).into_iter().map(|(s, _)| s).collect();
+    let mut defs = world_defs();
+    defs.extend(sweep_defs(false));
+    let systems: Vec<_> = build("C08", &RoleMon, defs, true).into_iter().map(|(s, _)| s).collect();
     replay_world(&systems, r);
 }
